@@ -79,6 +79,33 @@ def run(repo, rep, tier):
               "sites)" % n_id, construct="identifier-kind-constant",
               detail="; ".join(badp))
     L.whitelist_rule(repo, rep, "R09.3", ("chameleon.metal",))
+    # a whole template used as a macro is entered through include(): what
+    # the caller hands over (stream, scopes, translation domain, context and
+    # target language) all reaches the render function
+    inc = repo.func("chameleon.zpt.template.PageTemplate.include")
+    ia = inc.node.args
+    calls_ = [c for c in ast.walk(inc.node) if isinstance(c, ast.Call)
+              and src(c.func) == "self._render"]
+    oki = bool(calls_)
+    for c in calls_:
+        star = any(isinstance(a, ast.Starred) for a in c.args) and any(
+            k.arg is None for k in c.keywords)
+        if ia.vararg is not None and ia.kwarg is not None:
+            oki = oki and star and \
+                any(isinstance(a, ast.Starred) and
+                    src(a.value) == ia.vararg.arg for a in c.args) and \
+                any(k.arg is None and src(k.value) == ia.kwarg.arg
+                    for k in c.keywords)
+        else:
+            used = {x.id for x in ast.walk(c) if isinstance(x, ast.Name)}
+            names_ = {x.arg for x in ia.args[1:] + ia.kwonlyargs}
+            oki = oki and names_ <= used
+    rep.check(oki, "R09.3", inc.qualname, "include() hands every argument "
+              "on to the render function", construct="include-forwards-all",
+              where=L.where(inc))
+    # data-metal-* is metal:* (C18 owns the conversion)
+    from . import c18 as _c18
+    L.borrow(repo, rep, "R09.3", "C18", _c18._keyed, ("convert-first",))
     L.state_rule(repo, rep)
 
 
